@@ -57,6 +57,9 @@ class AccessMixin(object):
     b = self.builtin_method(st, v, name)
     if b is not None:
       return [(st, b)]
+    if isinstance(v, VCallable) and ('opaque:' + v.label, name) in self.ctx.registry.fields:
+      # a data attribute of an opaque user object / class, declared with reg.shape('opaque:<label>', attr=kind)
+      return [(st, self.read_field(st, VRef('opaque:' + v.label, v.t), name))]
     if isinstance(v, VCallable) and not name.startswith('__'):
       # a method of an opaque user object: itself an opaque callable, identified by (object, method name)
       return [(st, VCallable(z3.Function('attr_' + name, z3.IntSort(), z3.IntSort())(v.t), label='%s.%s' % (v.label, name)))]
@@ -258,6 +261,9 @@ class AccessMixin(object):
       for s, tv in self.resolve(st, obj):
         out.extend(self.setattr(s, tv, name, value, node))
       return out
+    if isinstance(obj, VCallable) and ('opaque:' + obj.label, name) in self.ctx.registry.fields:
+      self.write_field(st, VRef('opaque:' + obj.label, obj.t), name, value)
+      return [(st, None)]
     if not isinstance(obj, VRef):
       raise Unsupported('setattr on %r' % (obj,))
     if obj.nullable:
